@@ -356,6 +356,53 @@ def h_with_context(eng):
     except DimensionalityError:
         leaked = False
     eng.prove(not leaked, "with_context-parameters-scoped")
+    # called while the same context is already active with another parameter value: inside the
+    # call the decorator's value applies, after it the enclosing block's value is back
+    n2 = eng.real("n2")
+    eng.assume(n2 > 0)
+    eng.assume(Not(Eq(n2, nn)))
+    with ureg.context("sp", n=n2):
+        eng.prove(Eq(g(q).magnitude, 299792458 / (x * nn)), "with_context-inside-active-context:decorator-parameters-win")
+        seen.clear()
+        r = h(q)
+        eng.prove(len(seen) == 1 and Eq(seen[0], 299792458 / (x * nn)), "with_context+wraps-inside-active-context:magnitude")
+        eng.prove(Eq(k(q).magnitude, 299792458 / (x * nn)), "with_context+check-inside-active-context")
+        eng.prove(Eq(f(q).magnitude, 299792458 / (x * n2)), "with_context-without-parameters-inherits-the-active-value")
+        eng.prove(Eq(q.to("hertz").magnitude, 299792458 / (x * n2)), "with_context-inside-active-context:outer-value-back-afterwards")
+    with ureg.context("boltzmann"):
+        eng.prove(Eq(g(q).magnitude, 299792458 / (x * nn)), "with_context-inside-unrelated-context")
+
+
+def h_reentrant(eng):
+    """one decorator object, used re-entrantly: a wrapped function that calls itself (or a sibling
+    made by the same ureg.wraps(...) object) with arguments in other units still gets its own
+    result labelled with the units of its own arguments"""
+    ureg = regs.default(eng)
+    x, x2, y, y2 = eng.real("x"), eng.real("x2"), eng.real("y"), eng.real("y2")
+    deco = ureg.wraps("=A", ("=A", "=A", None), strict=False)
+    inner_results = []
+
+    @deco
+    def add(a, b, again):
+        if again:
+            inner_results.append(add(ureg.Quantity(y, "millimeter"), ureg.Quantity(y2, "inch"), False))
+        return a + b
+
+    @deco
+    def sibling(a, b, flag):
+        inner_results.append(add(ureg.Quantity(y, "hour"), ureg.Quantity(y2, "second"), False))
+        return a - b
+
+    r = add(ureg.Quantity(x, "meter"), ureg.Quantity(x2, "centimeter"), True)
+    eng.prove(r.units == ureg.Unit("meter"), "reentrant:outer-units")
+    eng.prove(Eq(r.magnitude, x + x2 / 100), "reentrant:outer-value")
+    eng.prove(inner_results[0].units == ureg.Unit("millimeter") and Eq(inner_results[0].magnitude, y + y2 * Fraction(254, 10)), "reentrant:inner-result")
+    r = sibling(ureg.Quantity(x, "kilogram"), ureg.Quantity(x2, "gram"), 0)
+    eng.prove(r.units == ureg.Unit("kilogram") and Eq(r.magnitude, x - x2 / 1000), "reentrant:sibling-outer")
+    eng.prove(inner_results[1].units == ureg.Unit("hour") and Eq(inner_results[1].magnitude, y + y2 / 3600), "reentrant:sibling-inner")
+    # the sequential calls afterwards are unaffected
+    r = add(ureg.Quantity(x, "inch"), ureg.Quantity(x2, "foot"), False)
+    eng.prove(r.units == ureg.Unit("inch") and Eq(r.magnitude, x + 12 * x2), "reentrant:sequential-afterwards")
 
 
 MIN_DISCHARGED = {"H17.wraps": 1500, "H17.check": 60, "H17.arity": 10}
@@ -449,4 +496,5 @@ def cases(tier, seed):
             out.append(Case("H17.check", f"{dims}:{units}:{form}", M, "h_check", {"dims": dims, "units": units, "form": form}, validate=1))
     out.append(Case("H17.check", "with_context", M, "h_with_context", {}, validate=1))
     out.append(Case("H17.wraps", "fraction-registry-exact", M, "h_exact_types", {}, kind="conc"))
+    out.append(Case("H17.wraps", "reentrant", M, "h_reentrant", {}, validate=1))
     return out
